@@ -188,7 +188,115 @@ theorem CF_destroy_order :
         .s "__delete(config->include_dir)", .s "__zero(config)"]] := by
   decide
 
+/-! ### the include stack (lib/scanctx.c): C10 depth limit, C11 release of files and lists -/
+
+/-- the part of a path in front of the first occurrence of `e` (the whole path if there is none) -/
+def upTo (e : Ev) : List Ev → List Ev
+  | [] => []
+  | x :: xs => if x == e then [] else x :: upTo e xs
+
+/-- the part of a path after the first occurrence of `e` -/
+def after (e : Ev) : List Ev → List Ev
+  | [] => []
+  | x :: xs => if x == e then xs else after e xs
+
+abbrev PUSH := traces flow_libconfig_scanctx_push_include
+abbrev NEXT := traces flow_libconfig_scanctx_next_include_file
+abbrev POP := traces flow_libconfig_scanctx_pop_include
+abbrev CLEANUP := traces flow_libconfig_scanctx_cleanup
+
+def callIncludeFn : Ev := .s "files=ctx->config->include_fn(ctx->config,ctx->config->include_dir,path,error)"
+def deleteFiles : Ev := .s "libconfig_strvec_delete(files)"
+def pushDepth : Ev := .s "++(ctx->stack_depth)"
+def callNext : Ev := .s "fp=libconfig_scanctx_next_include_file(ctx,error)"
+def callPop : Ev := .s "(void)libconfig_scanctx_pop_include(ctx)"
+
+/-- C10: the depth limit is tested before anything else happens; at the limit nothing is pushed, the include function is
+not called, the error text is the documented one -/
+theorem CF_push_depth_limit :
+    ∀ p ∈ PUSH, p.contains (.yes "ctx->stack_depth==MAX_INCLUDE_DEPTH") = true →
+      p.contains (.s "*error=err_include_too_deep") = true ∧ p.getLast? = some (.ret "(NULL)") ∧
+      count callIncludeFn p = 0 ∧ count pushDepth p = 0 := by
+  decide
+
+/-- C11: whatever the include function answered (an error, an error AND a list, NULL, an empty list), a list that is not
+installed in a frame is released exactly once and nothing is pushed -/
+theorem CF_push_refused_list_released :
+    ∀ p ∈ PUSH, p.contains (.no "ctx->stack_depth==MAX_INCLUDE_DEPTH") = true → count pushDepth p = 0 →
+      count deleteFiles p = 1 ∧ p.getLast? = some (.ret "(NULL)") ∧ count (.s "frame->files=files") p = 0 := by
+  decide
+
+/-- a frame that was pushed owns the list, its file names are recorded, the first file is opened through
+`next_include_file`, and when that fails the frame is popped again (which releases list and stream) -/
+theorem CF_push_installed :
+    ∀ p ∈ PUSH, count pushDepth p = 1 →
+      count deleteFiles p = 0 ∧ before (.s "frame->files=files") pushDepth p = true ∧ before pushDepth callNext p = true ∧
+      p.contains (.loop "for(f=files;*f;++f)" ["libconfig_strvec_append(&(ctx->filenames),*f)"]) = true ∧
+      (p.contains (.yes "!fp") = true → before callNext callPop p = true) ∧
+      (p.contains (.no "!fp") = true → count callPop p = 0) ∧ p.getLast? = some (.ret "(fp)") := by
+  decide
+
+def openNext : Ev := .s "include_frame->current_stream=fopen(*(include_frame->current_file),\"rt\")"
+def closeCur : Ev := .s "fclose(include_frame->current_stream)"
+def resetCur : Ev := .s "include_frame->current_stream=NULL"
+def curStream : String := "include_frame->current_stream"
+
+/-- C11: the stream of the file just finished is closed, and forgotten, BEFORE the next file is opened or the end of the
+list is reported - on every path on which there was one -/
+theorem CF_next_closes_previous :
+    ∀ p ∈ NEXT, (upTo openNext p).contains (.yes curStream) = true →
+      before (.yes curStream) closeCur (upTo openNext p) = true ∧ before closeCur resetCur (upTo openNext p) = true := by
+  decide
+
+/-- C03/C11: a file that opened but is a directory (or cannot be examined) is closed again and forgotten, and the error
+is the documented one exactly on the paths that end without a stream -/
+theorem CF_next_directory :
+    ∀ p ∈ NEXT, p.contains (.yes "(fstat(fd,&statbuf)!=0)||S_ISDIR(statbuf.st_mode)") = true →
+      before openNext closeCur (openNext :: after openNext p) = true ∧ (after openNext p).contains resetCur = true := by
+  decide
+
+theorem CF_next_error_text :
+    ∀ p ∈ NEXT, (p.contains (.s "*error=err_bad_include") = true ↔ p.contains (.yes "!include_frame->current_stream") = true) ∧
+      p.head? = some (.s "struct include_stack_frame*include_frame") ∧ (p.drop 1).head? = some (.s "*error=NULL") ∧
+      (p.getLast? = some (.ret "(NULL)") ∨ p.getLast? = some (.ret "(include_frame->current_stream)")) := by
+  decide
+
+/-- LIFO release: a pop gives back the parent buffer after releasing the frame's list and closing its stream -/
+theorem CF_pop :
+    ∀ p ∈ POP, (p.contains (.yes "ctx->stack_depth==0") = true → p = [.yes "ctx->stack_depth==0", .ret "(NULL)"] ∨ p.getLast? = some (.ret "(NULL)")) ∧
+      (p.contains (.no "ctx->stack_depth==0") = true →
+        count (.s "frame=&(ctx->include_stack[--(ctx->stack_depth)])") p = 1 ∧ count (.s "__delete(frame->files)") p = 1 ∧
+        (p.contains (.yes "frame->current_stream") = true → p.contains (.s "fclose(frame->current_stream)") = true) ∧
+        p.getLast? = some (.ret "(frame->parent_buffer)")) := by
+  decide
+
+/-- the final clean-up visits every frame still on the stack: closes its stream if it has one, releases its list; then
+releases the string buffer and hands over the file names -/
+theorem CF_cleanup :
+    ∀ p ∈ CLEANUP, p.getLast? = some (.ret "(libconfig_strvec_release(&(ctx->filenames)))") ∧
+      count (.s "__delete(libconfig_strbuf_release(&(ctx->string)))") p = 1 ∧
+      (p.contains (.loopIter "for(i=0;i<ctx->stack_depth;++i)") = true →
+        count (.s "__delete(frame->files)") p = 1 ∧
+        (p.contains (.yes "frame->current_stream") = true → p.contains (.s "fclose(frame->current_stream)") = true)) := by
+  decide
+
+theorem CF_scanctx_translated :
+    (PUSH ++ NEXT ++ POP ++ CLEANUP ++ traces flow_libconfig_scanctx_init ++ traces flow_libconfig_scanctx_current_filename).all
+      (fun p => !hasOther p) = true := by
+  decide
+
+/-- the file a setting or an error is attributed to: the CURRENT file of the innermost frame, the top file outside includes -/
+theorem CF_current_filename :
+    traces flow_libconfig_scanctx_current_filename =
+      [[.yes "ctx->stack_depth>0", .ret "(*(ctx->include_stack[ctx->stack_depth-1].current_file))"],
+       [.no "ctx->stack_depth>0", .ret "(ctx->top_filename)"]] := by
+  decide
+
 /-! ### the statements are not vacuous -/
+
+example : PUSH.length = 9 ∧ NEXT.length = 29 ∧ POP.length = 3 ∧ CLEANUP.length = 3 := by decide
+example : (PUSH.filter (fun p => count pushDepth p == 1)).length = 4 := by decide
+
 
 example : READ.length = 8 ∧ RFILE.length = 4 ∧ WFILE.length = 9 := by decide
 example : (WFILE.filter (fun p => p.getLast? == some (.ret "(CONFIG_TRUE)"))).length = 3 := by decide
